@@ -6,7 +6,7 @@ import itertools
 
 from ..model import AnalysisError, dotted, unparse, walk_no_nested
 from ..pathtab import Atoms, canon, evaluate
-from ..q import FuncView, arg, arg_text, callee_last, contains, kwargs, strip_await
+from ..q import FuncView, arg, arg_text, callee_last, contains, ifexp_parts, kwargs, strip_await
 from .c04 import _ret_class
 
 EXPLANATION = (
@@ -96,6 +96,38 @@ def check(ck):
         rv = FuncView(re_)
         rc = [c for c in rv.calls() if isinstance(c.func, ast.Name) and c.func.id == re_.positional_params[0]]
         ck.ob("resolver_executor: calls the raw resolver exactly once", len(rc) == 1 and rv.is_awaited(rc[0]) and not rv.loops(), re_, rc[0] if rc else re_.node, construct="once:resolver")
+        sg = repo.func(UD, "subscription_generator")
+        for g in (gfn, sg):
+            lps = [n for n in walk_no_nested(g.node) if isinstance(n, ast.AsyncFor)]
+            ok = len(lps) == 1 and len(lps[0].body) == 1 and isinstance(lps[0].body[0], ast.Expr) and isinstance(lps[0].body[0].value, ast.Yield) and \
+                unparse(lps[0].body[0].value.value) == unparse(lps[0].target) and not lps[0].orelse
+            ck.ob(f"{g.name}: every payload of the wrapped generator is passed on, unchanged, once", ok, g, lps[0] if lps else g.node, construct=f"once:{g.name}:pass-through")
+        for g, callee in ((re_, re_.positional_params[0]), (sg, sg.positional_params[0])):
+            gv2 = FuncView(g)
+            pops = [x for x in gv2.calls("pop") if unparse(x) == "kwargs.pop('context_coercer', None)"]
+            call = [x for x in gv2.calls() if isinstance(x.func, ast.Name) and x.func.id == callee]
+            ok = len(pops) == 1 and len(call) == 1 and gv2.dominated_by(call[0], pops[0]) and [unparse(a) for a in call[0].args] == ["*args"] and \
+                [unparse(k.value) for k in call[0].keywords if k.arg is None] == ["kwargs"] and not [k for k in call[0].keywords if k.arg]
+            ck.ob(f"{g.name}: the user callable gets exactly the call's operands - the engine-only `context_coercer` keyword is removed first", ok, g, call[0] if call else g.node,
+                  construct=f"once:{g.name}:operands")
+        from .c01 import _resolver_call
+        _resolver_call(ck, repo)
+        rf = repo.func("tartiflette/resolver/factory.py", "resolve_field_value_or_error")
+        rfv = FuncView(rf)
+        rp = rf.positional_params
+        w = rfv.maybe_call("wraps_with_directives")
+        kw = {k: unparse(v) for k, v in kwargs(w).items()} if w is not None else {}
+        st = rfv.stmt_of(w) if w is not None else None
+        ok = kw == {"directives_definition": "computed_directives", "directive_hook": "'on_field_execution'", "func": rp[3], "is_resolver": "True", "with_default": "True"} and \
+            isinstance(st, ast.Assign) and unparse(st.targets[0]) == rp[3] and set(rfv.conditions(w)) == {("computed_directives", "T")}
+        ck.ob("resolve_field_value_or_error: directives written on the field in the query wrap the effective resolver (on_field_execution), exactly when there are some", ok, rf,
+              w or rf.node, construct="query-directives:wrap", detail=str(kw))
+        cdn = rfv.maybe_call("compute_directive_nodes")
+        lps = [l for l in rfv.loops() if isinstance(l, ast.For) and unparse(l.iter) == rp[2]]
+        ok = cdn is not None and len(lps) == 1 and contains(lps[0], cdn) and [unparse(a) for a in cdn.args] == [f"{rp[0]}.schema", f"{unparse(lps[0].target)}.directives", f"{rp[0]}.variable_values"] \
+            and unparse(rfv.stmt_of(cdn)).startswith("computed_directives.extend(") and not any(isinstance(n, (ast.Break, ast.Continue, ast.Return)) for n in walk_no_nested(lps[0]))
+        ck.ob("resolve_field_value_or_error: the query directives of *every* merged field node are collected, in order, with the request's variables", ok, rf, cdn or rf.node,
+              construct="query-directives:collect")
         c = repo.func("tartiflette/types/helpers/get_directive_instances.py", "compute_directive_nodes")
         cv = FuncView(c)
         rets = cv.returns()
@@ -159,6 +191,51 @@ def directive_tables(ck, repo):
                 got.add("hooks" if called else "no-hooks")
             ck.ob(f"{name} table {val}", got == {want}, f, f.node, construct=f"{name}:hooks:" + "".join(str(int(v)) for v in val.values()),
                   detail=f"got {sorted(got)}, want {want}" + atoms.note())
+    # ---- directives coercers: coercer first, hooks only on success
+    for rel, name in (("tartiflette/coercers/literals/directives_coercer.py", "literal_directives_coercer"), ("tartiflette/coercers/inputs/directives_coercer.py", "input_directives_coercer")):
+        f = repo.func(rel, name)
+        fv = FuncView(f)
+        cc = [c for c in fv.calls() if isinstance(c.func, ast.Name) and c.func.id == "coercer"]
+        dc = [c for c in fv.calls() if isinstance(c.func, ast.Name) and c.func.id == "directives"]
+        ok = len(cc) == 1 and len(dc) == 1 and fv.dominated_by(dc[0], fv.stmt_of(cc[0]))
+        ck.ob(f"{name}: the coercer runs before the hooks", ok, f, dc[0] if dc else f.node, construct=f"{name}:order")
+        if cc:
+            pp = f.positional_params
+            if name == "literal_directives_coercer":
+                want_args, want_kw = [pp[0], pp[1], pp[2]], {"variables": "variables", "path": "path", "is_non_null_type": "is_non_null_type"}
+            else:
+                want_args, want_kw = [pp[0], pp[1], pp[2], pp[3]], {"path": "path"}
+            got_kw = {k: unparse(v) for k, v in kwargs(cc[0]).items()}
+            ck.ob(f"{name}: forwards all of its operands to the wrapped coercer ({', '.join(want_args + sorted(want_kw))})", [unparse(a) for a in cc[0].args] == want_args and got_kw == want_kw
+                  and fv.is_awaited(cc[0]), f, cc[0], construct=f"{name}:forwards",
+                  detail="dropping `is_non_null_type` silently disables the null-in-non-null check for variables nested in literals" if name.startswith("literal") else None)
+        rets = fv.returns()
+        shapes = sorted({("coercion_result" if unparse(r.value) == "coercion_result" else ("hooked" if unparse(r.value).startswith("CoercionResult(value=await directives(") else
+                                                                                            ("hook-error" if unparse(r.value).startswith("CoercionResult(errors=[graphql_error_from_nodes(") else "other")))
+                         for r in rets})
+        n_plain = len([r for r in rets if unparse(r.value) == "coercion_result"])
+        ck.ob(f"{name}: every exit hands back the coercion result, the hooked value or the hooks' failure as an error result", shapes == ["coercion_result", "hook-error", "hooked"] and
+              not any(r.value is None for r in rets) and n_plain == len(rets) - 2, f, f.node, construct=f"{name}:return-shapes", detail=str(shapes))
+        if dc:
+            ok = fv.guarded(dc[0], lambda t: t == "errors", "F") and fv.guarded(dc[0], lambda t: t == "directives", "T")
+            ck.ob(f"{name}: hooks run only on a successful coercion", ok, f, dc[0], construct=f"{name}:on-success")
+            ok = [unparse(a) for a in dc[0].args][:3] == [f.positional_params[0], "value", "ctx"] and fv.in_broad_try(dc[0]) is not None
+            ck.ob(f"{name}: hooks get (parent node, coerced value, ctx) and their failures become error results", ok, f, dc[0], construct=f"{name}:hook-operands")
+        hs = fv.handlers()
+        comp = [n for h in hs for n in ast.walk(h) if isinstance(n, ast.ListComp)]
+        ok = False
+        if len(hs) == 1 and len(comp) == 1 and hs[0].name:
+            e = hs[0].name
+            g = comp[0].generators[0]
+            it = ifexp_parts(g.iter) if isinstance(g.iter, ast.IfExp) else None
+            el = comp[0].elt
+            oe = arg(el, None, "original_error") if isinstance(el, ast.Call) else None
+            oep = ifexp_parts(oe) if isinstance(oe, ast.IfExp) else None
+            x = unparse(g.target)
+            ok = it == (f"isinstance({e}, MultipleException)", f"{e}.exceptions", f"[{e}]") and not g.ifs and callee_last(el) == "graphql_error_from_nodes" and \
+                [unparse(a) for a in el.args] == [f"str({x})", f.positional_params[1]] and oep == (f"is_coercible_exception({x})", "None", x)
+        ck.ob(f"{name}: a hook failure yields one error per raised exception (all members of a MultipleException), located at the value's node, keeping a foreign exception as original_error",
+              ok, f, comp[0] if comp else f.node, construct=f"{name}:hook-errors")
 
 
 HOOK_SITES = [
@@ -208,6 +285,7 @@ def _wiring_table(ck, repo):
         src = [n for n in walk_no_nested(b.node) if isinstance(n, ast.Assign) and unparse(n.targets[0]) == "directives_definition"]
         ck.ob(f"{cls}.bake: the directives are computed from self.directives", len(src) == 1 and unparse(src[0].value) == "compute_directive_nodes(schema, self.directives)", b,
               src[0] if src else b.node, construct=f"wiring:{cls}:source")
+    _bake_cascade(ck, repo)
     # output side: hook callable lives in the output_coercer (and only there) for leaf/composite types
     for rel, cls in HOOK_SITES[:6]:
         if cls == "GraphQLEnumValue":
@@ -311,3 +389,67 @@ def _stage_order(ck, repo):
     oc = ev.maybe_call("output_coercer")
     ok = oc is not None and unparse(oc.func.value) == "enum_value" and [unparse(a) for a in oc.args][:1] == [e.positional_params[0]]
     ck.ob("outputs.enum_coercer: the enum value's own output hooks run on the resolved value", ok, e, oc or e.node, construct="order:enum-value")
+
+
+# (file, function, iterated collection, child call, operands, guards the call may sit under)
+CASCADE = [
+    ("tartiflette/types/field.py", "GraphQLField.bake", "self.arguments.values()", "bake", ["schema"], set()),
+    ("tartiflette/types/directive.py", "GraphQLDirective.bake", "self.arguments.values()", "bake", ["schema"], set()),
+    ("tartiflette/types/input_object.py", "GraphQLInputObjectType.bake_input_fields", "self.input_fields.values()", "bake", ["schema"], {("self.input_fields", "T")}),
+    ("tartiflette/types/union.py", "GraphQLUnionType.bake_fields", "self._fields.values()", "bake", ["schema", "custom_default_resolver"], set()),
+    ("tartiflette/types/interface.py", "GraphQLInterfaceType.bake_fields", "self.implemented_fields.values()", "bake", ["schema", "custom_default_resolver"], {("self.implemented_fields", "T")}),
+    ("tartiflette/types/object.py", "GraphQLObjectType.bake_fields", "self.implemented_fields.values()", "bake", ["schema", "custom_default_resolver"], {("self.implemented_fields", "T")}),
+    ("tartiflette/types/enum.py", "GraphQLEnumType.bake_enum_values", "self.values", "bake", ["schema"], set()),
+    ("tartiflette/schema/schema.py", "GraphQLSchema._bake_types", "self._scalar_definitions.values()", "bake", ["self"], set()),
+    ("tartiflette/schema/schema.py", "GraphQLSchema._bake_types", "self._directive_definitions.values()", "bake", ["self"], set()),
+]
+
+
+def _bake_cascade(ck, repo):
+    """A hook wired in an element's `bake` exists only if that `bake` runs: every container bakes every one of its members."""
+    for rel, qual, it, callee, operands, allowed in CASCADE:
+        f = repo.func(rel, qual)
+        fv = FuncView(f)
+        lps = [l for l in fv.loops() if isinstance(l, ast.For) and unparse(l.iter) == it]
+        ok, c = False, None
+        if len(lps) == 1:
+            x = unparse(lps[0].target)
+            cs = [c for c in fv.calls(callee) if contains(lps[0], c) and isinstance(c.func, ast.Attribute) and unparse(c.func.value) == x]
+            if len(cs) == 1:
+                c = cs[0]
+                ok = [unparse(a) for a in c.args] == operands and set(fv.conditions(c)) <= allowed and len(fv.enclosing_loops(c)) == 1 and \
+                    not any(isinstance(n, (ast.Break, ast.Return)) for n in walk_no_nested(lps[0])) and \
+                    not any(isinstance(n, ast.Continue) and fv.cfg_node(n) is not None and n.lineno < c.lineno for n in walk_no_nested(lps[0]))
+        ck.ob(f"{qual}: every member of `{it}` is baked ({callee}({', '.join(operands)}))", ok, f, c or (lps[0] if lps else f.node), construct=f"cascade:{qual}:{it}")
+    # post-bake hooks of fields and enum values are run (awaited) on every member too
+    for rel, qual, it in (("tartiflette/types/union.py", "GraphQLUnionType.bake_fields", "self._fields.values()"),
+                          ("tartiflette/types/interface.py", "GraphQLInterfaceType.bake_fields", "self.implemented_fields.values()"),
+                          ("tartiflette/types/object.py", "GraphQLObjectType.bake_fields", "self.implemented_fields.values()"),
+                          ("tartiflette/types/enum.py", "GraphQLEnumType.bake_enum_values", "self.values")):
+        f = repo.func(rel, qual)
+        fv = FuncView(f)
+        lps = [l for l in fv.loops() if isinstance(l, ast.For) and unparse(l.iter) == it]
+        cs = [c for c in fv.calls("on_post_bake") if lps and contains(lps[0], c)]
+        bk = [c for c in fv.calls("bake") if lps and contains(lps[0], c)]
+        ok = len(cs) == 1 and len(bk) == 1 and fv.is_awaited(cs[0]) and unparse(cs[0].func.value) == unparse(lps[0].target) and fv.dominated_by(cs[0], fv.stmt_of(bk[0])) and \
+            set(fv.conditions(cs[0])) <= {("self.implemented_fields", "T")}
+        ck.ob(f"{qual}: each member's on_post_bake chain is awaited once, after its bake", ok, f, cs[0] if cs else f.node, construct=f"cascade:{qual}:post-bake")
+    # second pass of _bake_types dispatches every composite kind to its member-baking coroutine
+    f = repo.func("tartiflette/schema/schema.py", "GraphQLSchema._bake_types")
+    fv = FuncView(f)
+    want = {"bake_fields": {("isinstance(type_definition, (GraphQLObjectType, GraphQLInterfaceType, GraphQLUnionType))", "T")},
+            "bake_enum_values": {("isinstance(type_definition, (GraphQLObjectType, GraphQLInterfaceType, GraphQLUnionType))", "F"), ("isinstance(type_definition, GraphQLEnumType)", "T")},
+            "bake_input_fields": {("isinstance(type_definition, (GraphQLObjectType, GraphQLInterfaceType, GraphQLUnionType))", "F"), ("isinstance(type_definition, GraphQLEnumType)", "F"),
+                                  ("isinstance(type_definition, GraphQLInputObjectType)", "T")}}
+    for name, conds in want.items():
+        c = fv.maybe_call(name)
+        ok = c is not None and fv.is_awaited(c) and set(fv.conditions(c)) == conds and len(fv.enclosing_loops(c)) == 1 and unparse(fv.enclosing_loops(c)[0].iter) == "self.type_definitions.values()" \
+            and unparse(c.args[0]) == "self"
+        ck.ob(f"_bake_types: `{name}` is awaited for every type of its kind", ok, f, c or f.node, construct=f"cascade:_bake_types:{name}", detail=str(sorted(fv.conditions(c))) if c is not None else None)
+    tb = [c for c in fv.calls("bake") if unparse(c.func.value) == "type_definition"]
+    ok = len(tb) == 1 and set(fv.conditions(tb[0])) == {("isinstance(type_definition, GraphQLScalarType)", "F")} and unparse(fv.enclosing_loops(tb[0])[0].iter) == "self.type_definitions.values()"
+    ck.ob("_bake_types: every non-scalar type is baked (scalars were baked first)", ok, f, tb[0] if tb else f.node, construct="cascade:_bake_types:types")
+    if tb:
+        first = [c for c in fv.calls("bake_fields")]
+        ck.ob("_bake_types: all types are baked before any member is (members look their types up)", bool(first) and fv.dominated_by(first[0], fv.enclosing_loops(tb[0])[0]), f, tb[0],
+              construct="cascade:_bake_types:order")
